@@ -71,6 +71,7 @@ pub struct Monitor {
     /// replies the client may or may not write (for those publishes)
     optional_replies: Vec<Pk>,
     inbound_q2: Vec<u16>,
+    carried_q2: Vec<u16>,
     inbound_unacked: VecDeque<Pk>,
     outs: Vec<(String, u16)>,
     /// written on an earlier connection, announcement not surfaced yet
@@ -144,6 +145,7 @@ impl Monitor {
             lenient_tags: vec![],
             optional_replies: vec![],
             inbound_q2: vec![],
+            carried_q2: vec![],
             inbound_unacked: VecDeque::new(),
             outs: vec![],
             stale_outs: VecDeque::new(),
@@ -245,7 +247,9 @@ impl Monitor {
         self.replies.clear();
         self.in_aliases.clear();
         self.optional_replies.clear();
-        self.inbound_q2.clear();
+        // inbound QoS 2 flows that were open (publish received, not yet released) belong to
+        // the session: they stay known if the next CONNACK reports the session present
+        self.carried_q2 = std::mem::take(&mut self.inbound_q2);
         self.inbound_unacked.clear();
         self.connect_seen_unanswered = false;
         self.completed_rels.clear();
@@ -293,6 +297,10 @@ impl Monitor {
             Pk::ConnAck { sp, code, recv_max } => {
                 if *code == 0 {
                     self.resumed = Some(*sp);
+                    let carried = std::mem::take(&mut self.carried_q2);
+                    if *sp && !self.manual {
+                        self.inbound_q2 = carried;
+                    }
                     if let Some(m) = recv_max {
                         self.effective_limit = self.limit.min(*m);
                     }
@@ -363,7 +371,8 @@ impl Monitor {
                 } else if *qos > 0 {
                     self.inbound_unacked.push_back(pk.clone());
                 }
-                if *qos == 2 {
+                if *qos == 2 && !self.inbound_q2.contains(pkid) {
+                    // (the same id again before its release is the same flow)
                     self.inbound_q2.push(*pkid);
                 }
             }
@@ -646,6 +655,11 @@ impl Monitor {
         if self.is("C10") && self.expect_unsolicited && !e.contains("Unsolicited") && !e.contains("unsolicited") {
             self.v("unsolicited_not_reported", format!("unsolicited acknowledgement led to error {e:?}"));
         }
+        // ... and nothing the client did solicit (an open flow of the resumed session
+        // included) may be reported as unsolicited
+        if self.is("C10") && !self.expect_unsolicited && (e.contains("Unsolicited") || e.contains("unsolicited")) {
+            self.v("solicited_reported_unsolicited", format!("{e:?} although the broker sent nothing the client had not asked for"));
+        }
         self.expect_unsolicited = false;
         if self.is("C18") {
             self.check_keepalive_error(e, now);
@@ -905,7 +919,7 @@ impl Monitor {
             self.acks_in_order,
             self.last_was_error,
             self.connect_seen_unanswered,
-            (&self.outs, &self.wire_kinds, &self.inbound_q2, &self.inbound_unacked, &self.stale_outs),
+            (&self.outs, &self.wire_kinds, &self.inbound_q2, &self.inbound_unacked, &self.stale_outs, &self.carried_q2),
             (self.last_ping_ms, self.ping_outstanding_since, self.conn_started_ms, self.healthy, self.effective_limit, self.expect_unsolicited, self.partial_outstanding),
             (&self.completed_rels, self.reuse_during_release, self.session_lost_with_unacked),
         ))
